@@ -99,6 +99,37 @@ def di_shapes(tier):
         t1 = ctor_op(1, "P", in_code(f0, m10), "s", "singleton", None)
         t2 = ctor_op(2, "P", f"{in_code(f0, m20)}_{in_code('P', m21)}", "s", "singleton", None)
         shapes.append([t0, t1, t2, {"k": "route", "c": handler_id(0, ["0", "PR", "PR"])}])
+    # DI-SIB: the SAME type registered in two sibling blueprints with different cloning policies (clone-if-necessary in one,
+    # never-clone in the other), each with the same ownership conflict (T1 built from T0 by value while the handler also needs
+    # T0): the clone-if-necessary sibling is solved by a clone, the never-clone sibling must not be (the whole blueprint is
+    # rejected on a correct compiler; if it is accepted the run-time oracles see a clone of a never-clone value)
+    for m10, hm0, order in itertools.product(["v"], ["r", "v"], [0, 1]):
+        def sib(cl, slot):
+            return [ctor_op(0, "K", "0", "s", "request_scoped", cl), ctor_op(1, "P", in_code("K", m10), "s", "request_scoped", None),
+                    {"k": "route", "c": handler_id(0, [in_code("K", hm0), "PR", "0"])}]
+        a = {"k": "nest", "prefix": "/x", "bp": {"ops": sib("clone_if_necessary", 0)}}
+        b = {"k": "nest", "prefix": "/y", "bp": {"ops": sib(None, 0)}}
+        shapes.append([a, b] if order == 0 else [b, a])
+        # control: both siblings clone-if-necessary (accepted, clones in both)
+        b2 = {"k": "nest", "prefix": "/y", "bp": {"ops": sib("clone_if_necessary", 0)}}
+        if order == 0:
+            shapes.append([a, b2])
+    # DI-IMP: constructors brought in with `bp.import(from![module])` instead of individual registrations: a nested blueprint
+    # that imports ONE child module must get that module's constructor although an enclosing import (of the parent module, or of
+    # the sibling) already covers the type; explicit registrations and imports shadow each other by nesting level only
+    imp = lambda m: {"k": "import", "module": m}  # noqa: E731
+    hpr = {"k": "route", "c": handler_id(0, ["PR", "0", "0"])}
+    h1 = {"k": "route", "c": handler_id(1, ["0", "0", "0"])}
+    for m in ("a", "b"):
+        o = "b" if m == "a" else "a"
+        shapes.append([imp("crate::impp"), h1, {"k": "nest", "bp": {"ops": [imp(f"crate::impp::{m}"), hpr]}}])
+        shapes.append([imp("crate::impp"), {"k": "nest", "bp": {"ops": [imp(f"crate::impp::{m}"), {"k": "nest", "bp": {"ops": [hpr]}}]}}])
+        shapes.append([imp(f"crate::impp::{o}"), {"k": "nest", "bp": {"ops": [imp(f"crate::impp::{m}"), hpr]}}])
+        shapes.append([imp(f"crate::impp::{o}"), {"k": "route", "c": handler_id(1, ["PR", "0", "0"])},
+                       {"k": "nest", "bp": {"ops": [imp(f"crate::impp::{m}"), hpr]}}])
+        shapes.append([imp(f"crate::impp::{o}"), {"k": "nest", "bp": {"ops": [{"k": "ctor", "c": f"IMPP_{m.upper()}_T0", "lc": "request_scoped"}, hpr]}}])
+        shapes.append([ctor_op(0, "P", "0", "s", "request_scoped", None), {"k": "nest", "bp": {"ops": [imp(f"crate::impp::{m}"), hpr]}}])
+        shapes.append([imp(f"crate::impp::{m}"), hpr])
     if tier == "thorough":
         modes = [None, "v", "r"]
         for (f0, cl0), (f1, cl1) in itertools.product(FLAV_CL, [("P", None), ("K", "clone_if_necessary")]):
